@@ -462,10 +462,13 @@ func Run(run *core.Run) {
 			// --- (c) unedited canonical source: identical bytes
 			fi := w.order[found]
 			if !subj.edited[fi] && !bytes.Equal(rec.Data, []byte(w.files[fi].src)) {
-				run.Fail("c20/write/unedited-changed", "", "save#%d rewrote unedited %q with different bytes:\n--- written\n%s\n--- original\n%s", si, rec.Path, rec.Data, w.files[fi].src)
-				return
-			}
-			if !subj.edited[fi] {
+				if reindentedCloserComment(string(rec.Data), w.files[fi].src) {
+					run.SoftFail("c20/write/unedited-changed", knownReindent, "save#%d rewrote unedited %q with different bytes (only own-line comments before a closing delimiter moved one level in):\n--- written\n%s\n--- original\n%s", si, rec.Path, rec.Data, w.files[fi].src)
+				} else {
+					run.Fail("c20/write/unedited-changed", "", "save#%d rewrote unedited %q with different bytes:\n--- written\n%s\n--- original\n%s", si, rec.Path, rec.Data, w.files[fi].src)
+					return
+				}
+			} else if !subj.edited[fi] {
 				run.Count("unedited-file-identical")
 			}
 		}
@@ -556,8 +559,12 @@ func Run(run *core.Run) {
 			return
 		}
 		if !subj.edited[fi] && !bytes.Equal(disk.Files[w.files[fi].path], []byte(w.files[fi].src)) {
-			run.Fail("c20/disk/unedited-changed", "", "unedited %q differs on disk after the history", w.files[fi].path)
-			return
+			if reindentedCloserComment(string(disk.Files[w.files[fi].path]), w.files[fi].src) {
+				run.SoftFail("c20/write/unedited-changed", knownReindent, "unedited %q differs on disk after the history (own-line comments before a closing delimiter moved one level in)", w.files[fi].path)
+			} else {
+				run.Fail("c20/disk/unedited-changed", "", "unedited %q differs on disk after the history", w.files[fi].path)
+				return
+			}
 		}
 	}
 	for p, b := range w.bystanders {
@@ -568,6 +575,47 @@ func Run(run *core.Run) {
 	}
 	run.Count("histories-complete")
 }
+
+// reindentedCloserComment classifies one narrow, known way in which dst fails to reproduce a
+// gofmt-canonical file: go/printer leaves an own-line comment that directly precedes a closing ")"
+// or "}" at the indentation of the closer when the list before it contains certain multi-line
+// items (e.g. a selector as first argument); dst's restorer always pushes such a comment one level
+// in. It reports true only if EVERY differing line is such a comment line, identical up to exactly
+// one extra leading tab in what dst wrote, and followed (after further comment lines) by a closer.
+func reindentedCloserComment(written, original string) bool {
+	wl, ol := strings.Split(written, "\n"), strings.Split(original, "\n")
+	if len(wl) != len(ol) {
+		return false
+	}
+	diff := 0
+	for i := range wl {
+		if wl[i] == ol[i] {
+			continue
+		}
+		diff++
+		t := strings.TrimLeft(ol[i], "\t")
+		if !strings.HasPrefix(t, "//") || wl[i] != "\t"+ol[i] {
+			return false
+		}
+		j := i + 1
+		for j < len(ol) && strings.HasPrefix(strings.TrimLeft(ol[j], "\t"), "//") {
+			j++
+		}
+		if j >= len(ol) {
+			return false
+		}
+		c := strings.TrimLeft(ol[j], "\t")
+		if !strings.HasPrefix(c, ")") && !strings.HasPrefix(c, "}") {
+			return false
+		}
+		if len(ol[j])-len(c) != len(ol[i])-len(t) {
+			return false // the comment was not at the closer's indentation
+		}
+	}
+	return diff > 0
+}
+
+const knownReindent = "own-line-comment-before-closer-reindented"
 
 func pathsOf(w *workload) []string {
 	var ps []string
@@ -678,8 +726,12 @@ func runReal(run *core.Run, w *workload) {
 			}
 			expect[realPath(fi)] = string(b)
 			if !subj.edited[fi] && string(b) != w.files[fi].src {
-				run.Fail("c20/write/unedited-changed", "real", "unedited %q would be rewritten with different bytes", w.files[fi].path)
-				return
+				if reindentedCloserComment(string(b), w.files[fi].src) {
+					run.SoftFail("c20/write/unedited-changed", knownReindent, "unedited %q is rewritten with different bytes (own-line comments before a closing delimiter moved one level in)", w.files[fi].path)
+				} else {
+					run.Fail("c20/write/unedited-changed", "real", "unedited %q would be rewritten with different bytes", w.files[fi].path)
+					return
+				}
 			}
 		}
 		if len(after) != len(expect) {
